@@ -423,9 +423,17 @@ theorem decodeLoop_consume (app : App) (ctx : Model.Context) (c : Int) (n : Nat)
           have := congrArg List.length hc
           simp only [List.length_append, List.length_cons, List.length_nil] at this
           omega
-        · obtain ⟨_, _, _, _, _, e6⟩ := decodeLoop_live app ctx c n _ du' _ inBus' _ outBus' hr
-          have := e6 ⟨i, p, p + ctx.sequenceID * 1000#32⟩ (by rw [inside_add]; exact List.mem_append_right _ List.mem_cons_self)
-          intro hc; rw [hc] at this; cases this
+        · split at hr
+          · simp only [pure, Except.pure, Except.ok.injEq, Prod.mk.injEq] at hr
+            obtain ⟨rfl, rfl, rfl⟩ := hr
+            rw [inside_add]
+            intro hc
+            have := congrArg List.length hc
+            simp only [List.length_append, List.length_cons, List.length_nil] at this
+            omega
+          · obtain ⟨_, _, _, _, _, e6⟩ := decodeLoop_live app ctx c n _ du' _ inBus' _ outBus' hr
+            have := e6 ⟨i, p, p + ctx.sequenceID * 1000#32⟩ (by rw [inside_add]; exact List.mem_append_right _ List.mem_cons_self)
+            intro hc; rw [hc] at this; cases this
 
 /-! ### the drains: after a `ret`, and before a flush -/
 
